@@ -89,6 +89,9 @@ func runC20(c *Ctx) {
 	for _, g := range goFns {
 		c.relayFunction(g, goCalls[g])
 	}
+	// "instead of crashing the process": in the relay goroutine a result that may be nil (an accessor whose error was
+	// dropped, a failed assertion) is read only where the facts show it is not (the rule of C15.5, over the relay functions)
+	c.withOnly(map[string]string{"C15.5-result-read-only-when-valid": "C20.1-relay-reads-only-valid-results"}, nil, "C20.1-relay-functions", 1, func() { c.validResults(goFns) })
 	c.lockDiscipline()
 }
 
